@@ -148,9 +148,11 @@ def pow(a,b):
       db = deriv_b(r)
       if ar == 0.0 and db == 0.0:
         # At a zero of the base the general expression divides by a(r). For a constant exponent
-        # d/dr a**b = b*a**(b-1)*a' (which still raises ZeroDivisionError for b < 1, where the slope is infinite).
+        # d/dr a**b = b*a**(b-1)*a' (which still raises ZeroDivisionError for b < 1 at a simple zero, where the slope is infinite).
+        # Where the slope of the base vanishes too - beyond the end of its range the base is the zero function - so does the product.
         br = b(r)
-        return 0.0 if br == 0.0 else br * ar**(br-1.0) * deriv_a(r)
+        da = deriv_a(r)
+        return 0.0 if (br == 0.0 or da == 0.0) else br * ar**(br-1.0) * da
       # The log term vanishes for a constant exponent, a**b is then also differentiable for negative a.
       log_term = db * math.log(ar) if db != 0.0 else 0.0
       return potential(r) * (log_term + b(r) * deriv_a(r)/ar)
@@ -174,7 +176,7 @@ def pow(a,b):
           # (terms with a vanishing factor are dropped rather than multiplied by an infinite power of zero).
           c1 = br*(br-1.0)
           t1 = 0.0 if (c1 == 0.0 or da == 0.0) else c1 * ar**(br-2.0) * da * da
-          t2 = 0.0 if br == 0.0 else br * ar**(br-1.0) * d2a
+          t2 = 0.0 if (br == 0.0 or d2a == 0.0) else br * ar**(br-1.0) * d2a
           return t1 + t2
 
         # value = (deriv_b(r)*log(a(r)) + b(r)*deriv_a(r)/a(r))*deriv(r) + (math.log(a(r))*deriv2_b(r) + b(r)*deriv2_a(r)/a(r) + deriv_a(r)*deriv2_b(r)/a(r) + deriv_b(r)*deriv2_a(r)/a(r) - b(r)*deriv_a(r)*deriv2_a(r)/a(r)**2)*potential(r)
